@@ -25,7 +25,7 @@ pub fn props() -> Vec<Prop> {
             id: "C10",
             run: c10,
             tools: None,
-            rule: "for every (link position, target position) pair over 2 names up to depth 4 (quick) / 6 (thorough), target kind in {file, dir, absent, link-to-file, link-to-dir}, and both spellings of the target (absolute, relative to the link's directory): a fresh filesystem is prepared, symlink(link, target) is called and the laws of the statement are checked through the API (readlink_abs == abs(target); clean(dir(link)/readlink) == readlink_abs and readlink relative; is_symlink && !is_file && !is_dir; is_symlink_dir/file == kind of the target at creation; entry()/follow(true) swaps path and alt exactly once; remove / chmod / chown without follow act on the link and leave the target's snapshot unchanged; readlink/readlink_abs fail on every non-link). Both backends; on Stdfs additionally std::fs::read_link resolves to the same target. distinct_nontrivial = distinct (backend, depth(link), depth(target), relation, target kind, spelling) tuples. Later additions: clone()/upcast() of a followed entry; a second symlink() for the occupied location under six spellings of the link path (refused and unchanged, or Ok and the law holds for the new target); chown_b / chmod_b on the link with every recursion setting; on Stdfs the target-recording clauses for every target kind.",
+            rule: "for every (link position, target position) pair over 2 names up to depth 4 (quick) / 6 (thorough), target kind in {file, dir, absent, link-to-file, link-to-dir}, and both spellings of the target (absolute, relative to the link's directory): a fresh filesystem is prepared, symlink(link, target) is called and the laws of the statement are checked through the API (readlink_abs == abs(target); clean(dir(link)/readlink) == readlink_abs and readlink relative; is_symlink && !is_file && !is_dir; is_symlink_dir/file == kind of the target at creation; entry()/follow(true) swaps path and alt exactly once; remove / chmod / chown without follow act on the link and leave the target's snapshot unchanged; readlink/readlink_abs fail on every non-link). Both backends; on Stdfs additionally std::fs::read_link resolves to the same target. distinct_nontrivial = distinct (backend, depth(link), depth(target), relation, target kind, spelling) tuples. Later additions: clone()/upcast() of a followed entry; a second symlink() for the occupied location under six spellings of the link path (refused and unchanged, or Ok and the law holds for the new target); chown_b / chmod_b on the link with every recursion setting; on Stdfs the target-recording clauses for every target kind; chown of the link back to exactly the owner its target has.",
             assumptions: &["on Stdfs, for targets that are missing or links themselves, the target-recording clauses (readlink_abs, the readlink navigation law, entry path/alt) are judged; the kind flags and the acts-on-the-link clauses only inside C02's domain", "readlink may be absolute only when the target is the link's own directory (C16)", "the Stdfs half runs as root (chown must be able to succeed)"],
             shards_quick: 8,
             shards_thorough: 16,
@@ -285,14 +285,21 @@ fn relation(op: &Op, pre: &NTree, post: &NTree, res: &Res, sa: &str, da: &str, w
     // directories that had to be created above the destination: a chmod option that selects directories gives them
     // its mode, any other option leaves them to mirror the directory the source lives in (it never selects them)
     if !follow {
-        let src_parent_mode = parent_of(&sroot).and_then(|p| pre.nodes.get(&p)).map(|n| n.mode & 0o7777);
+        // (a directory source brings them along with its own mode - they are made in one go with its copy -, a file or
+        // link source with the mode of the directory it lives in; the statement fixes neither, both are what the
+        // code documents, and before sticky bits were put on the states the two could not be told apart)
+        let src_parent_mode = if pre.is_real_dir(&sroot) {
+            pre.nodes.get(&sroot).map(|n| n.mode & 0o7777)
+        } else {
+            parent_of(&sroot).and_then(|p| pre.nodes.get(&p)).map(|n| n.mode & 0o7777)
+        };
         for (k, n) in &post.nodes {
             if !pre.nodes.contains_key(k) && is_under(&droot, k) && matches!(n.kind, NKind::Dir) {
                 let expect = dmode.or(src_parent_mode);
                 if let Some(e) = expect {
                     if n.mode & 0o7777 != e {
                         v.push((
-                            format!("created-parent-directory-mode-{}→differs", if dmode.is_some() { "selected-option" } else { "mirrors-source-parent" }),
+                            format!("created-parent-directory-mode-{}→differs", if dmode.is_some() { "selected-option" } else { "mirrors-source" }),
                             format!("{} mode {:o} expected {:o}", k, n.mode & 0o7777, e),
                         ));
                         break;
@@ -428,9 +435,32 @@ fn c09(ctx: &Ctx, rep: &mut Report) {
             // the sandbox root has a real name and a real parent, the virtual "/" has neither
             if si % 4 == 0 && sa != "/" && in_domain_state(state) && !through_link(state, Some(&sa)) && !through_link(state, Some(&da)) {
                 set_case(&format!("rel:{}(stdfs,{}):returns→stalls", op.name(), cls), &format!("{:?} {:?}", hist, op));
-                if let Some((r, pre_d, post_d)) = stdfs_step(&root, state, op) {
+                // every second of these states is put on disk with the sticky bit on its directories and the set-id
+                // bits on its files: a mode is carried over whole, not only its rwx part (the relation compares what
+                // is observed before and after, so nothing else changes; the set-group-id bit on directories is left
+                // out because the kernel hands it on to new sub-directories by itself)
+                let special = si % 8 == 4;
+                let decorated;
+                let on_disk: &NTree = if special {
+                    let mut d = state.clone();
+                    for (k, n) in d.nodes.iter_mut() {
+                        match n.kind {
+                            NKind::Dir if k != "/" => n.mode |= 0o1000,
+                            NKind::File(_) => n.mode |= if k.len() % 2 == 0 { 0o4000 } else { 0o2000 },
+                            _ => {},
+                        }
+                    }
+                    decorated = d;
+                    &decorated
+                } else {
+                    state
+                };
+                if let Some((r, pre_d, post_d)) = stdfs_step(&root, on_disk, op) {
                     rep.eval();
-                    rep.key_str(&format!("stdfs|{}|{}|{}", op.name(), cls, r.class()));
+                    if special {
+                        rep.count("real_calls_on_states_with_sticky_and_set_id_bits", 1);
+                    }
+                    rep.key_str(&format!("stdfs|{}|{}|{}{}", op.name(), cls, r.class(), if special { "|special-bits" } else { "" }));
                     for (what, detail) in relation(op, &pre_d, &post_d, &r, &sa, &da, false) {
                         rep.violation(
                             &format!("rel:{}(stdfs,{}):{}", op.name(), cls, what),
@@ -719,6 +749,35 @@ fn c10_scenario<V: VirtualFileSystem>(v: &V, backend: &str, root: &str, l: &str,
             let sb2 = snapshot();
             if r.is_ok() && sb2.nodes.get(&tabs).map(|n| n.mode) != sb1.nodes.get(&tabs).map(|n| n.mode) {
                 bad(&format!("chmod_b(link,recurse={:?})-leaves-target→target-changed", recurse), format!("{:?}", sb2.nodes.get(&tabs).map(|n| n.mode)));
+            }
+        }
+        // ... and back to exactly the owner the TARGET has: the link's own owner differs from it by now, so there is
+        // something to do, and it is done to the link (looking at the owner through the link would say "nothing to do")
+        let sc0 = snapshot();
+        if let Some((tu, tg)) = sc0.nodes.get(&tabs).map(|n| (n.uid, n.gid)) {
+            if sc0.nodes.get(&rl(l)).map(|n| (n.uid, n.gid)) != Some((tu, tg)) {
+                for via_builder in [false, true] {
+                    if via_builder {
+                        let _ = v.chown(rl(l), 41, 42);
+                    }
+                    let r = if via_builder {
+                        v.chown_b(rl(l)).and_then(|c| c.owner(tu, tg).exec())
+                    } else {
+                        v.chown(rl(l), tu, tg)
+                    };
+                    let sc1 = snapshot();
+                    if r.is_ok() {
+                        if sc1.nodes.get(&rl(l)).map(|n| (n.uid, n.gid)) != Some((tu, tg)) {
+                            bad(
+                                &format!("{}(link,to-the-target's-owner)-acts-on-link→link-owner-unchanged", if via_builder { "chown_b" } else { "chown" }),
+                                format!("{:?}", sc1.nodes.get(&rl(l)).map(|n| (n.uid, n.gid))),
+                            );
+                        }
+                        if sc1.nodes.get(&tabs).map(|n| (n.uid, n.gid)) != Some((tu, tg)) {
+                            bad("chown(link,to-the-target's-owner)-leaves-target→target-owner-changed", format!("{:?}", sc1.nodes.get(&tabs).map(|n| (n.uid, n.gid))));
+                        }
+                    }
+                }
             }
         }
         let r = v.remove(rl(l));
